@@ -22,9 +22,9 @@ Proofs/Walk.vos Proofs/Walk.vok Proofs/Walk.required_vos: Proofs/Walk.v Model/Da
 Proofs/DagApi.vo Proofs/DagApi.glob Proofs/DagApi.v.beautified Proofs/DagApi.required_vo: Proofs/DagApi.v Model/Dag.vo Proofs/Kahn.vo Proofs/Walk.vo
 Proofs/DagApi.vio: Proofs/DagApi.v Model/Dag.vio Proofs/Kahn.vio Proofs/Walk.vio
 Proofs/DagApi.vos Proofs/DagApi.vok Proofs/DagApi.required_vos: Proofs/DagApi.v Model/Dag.vos Proofs/Kahn.vos Proofs/Walk.vos
-Harness/Glue.vo Harness/Glue.glob Harness/Glue.v.beautified Harness/Glue.required_vo: Harness/Glue.v Lib/Bytes.vo Lib/Val.vo Model/Index.vo Model/Dag.vo
-Harness/Glue.vio: Harness/Glue.v Lib/Bytes.vio Lib/Val.vio Model/Index.vio Model/Dag.vio
-Harness/Glue.vos Harness/Glue.vok Harness/Glue.required_vos: Harness/Glue.v Lib/Bytes.vos Lib/Val.vos Model/Index.vos Model/Dag.vos
+Harness/Glue.vo Harness/Glue.glob Harness/Glue.v.beautified Harness/Glue.required_vo: Harness/Glue.v Lib/Bytes.vo Lib/Val.vo Model/Index.vo Model/Dag.vo Model/Git.vo
+Harness/Glue.vio: Harness/Glue.v Lib/Bytes.vio Lib/Val.vio Model/Index.vio Model/Dag.vio Model/Git.vio
+Harness/Glue.vos Harness/Glue.vok Harness/Glue.required_vos: Harness/Glue.v Lib/Bytes.vos Lib/Val.vos Model/Index.vos Model/Dag.vos Model/Git.vos
 Harness/Extract.vo Harness/Extract.glob Harness/Extract.v.beautified Harness/Extract.required_vo: Harness/Extract.v Harness/Glue.vo
 Harness/Extract.vio: Harness/Extract.v Harness/Glue.vio
 Harness/Extract.vos Harness/Extract.vok Harness/Extract.required_vos: Harness/Extract.v Harness/Glue.vos
@@ -52,3 +52,27 @@ Properties/C01.vos Properties/C01.vok Properties/C01.required_vos: Properties/C0
 AsFound/C01.vo AsFound/C01.glob AsFound/C01.v.beautified AsFound/C01.required_vo: AsFound/C01.v Lib/Bytes.vo Lib/Val.vo Model/Index.vo Proofs/IndexProof.vo Properties/C01.vo
 AsFound/C01.vio: AsFound/C01.v Lib/Bytes.vio Lib/Val.vio Model/Index.vio Proofs/IndexProof.vio Properties/C01.vio
 AsFound/C01.vos AsFound/C01.vok AsFound/C01.required_vos: AsFound/C01.v Lib/Bytes.vos Lib/Val.vos Model/Index.vos Proofs/IndexProof.vos Properties/C01.vos
+Model/Git.vo Model/Git.glob Model/Git.v.beautified Model/Git.required_vo: Model/Git.v 
+Model/Git.vio: Model/Git.v 
+Model/Git.vos Model/Git.vok Model/Git.required_vos: Model/Git.v 
+Proofs/GitProof.vo Proofs/GitProof.glob Proofs/GitProof.v.beautified Proofs/GitProof.required_vo: Proofs/GitProof.v Model/Git.vo
+Proofs/GitProof.vio: Proofs/GitProof.v Model/Git.vio
+Proofs/GitProof.vos Proofs/GitProof.vok Proofs/GitProof.required_vos: Proofs/GitProof.v Model/Git.vos
+Model/Checkpoint.vo Model/Checkpoint.glob Model/Checkpoint.v.beautified Model/Checkpoint.required_vo: Model/Checkpoint.v 
+Model/Checkpoint.vio: Model/Checkpoint.v 
+Model/Checkpoint.vos Model/Checkpoint.vok Model/Checkpoint.required_vos: Model/Checkpoint.v 
+Proofs/CheckpointProof.vo Proofs/CheckpointProof.glob Proofs/CheckpointProof.v.beautified Proofs/CheckpointProof.required_vo: Proofs/CheckpointProof.v Model/Checkpoint.vo
+Proofs/CheckpointProof.vio: Proofs/CheckpointProof.v Model/Checkpoint.vio
+Proofs/CheckpointProof.vos Proofs/CheckpointProof.vok Proofs/CheckpointProof.required_vos: Proofs/CheckpointProof.v Model/Checkpoint.vos
+Properties/C02.vo Properties/C02.glob Properties/C02.v.beautified Properties/C02.required_vo: Properties/C02.v Model/Git.vo Proofs/GitProof.vo
+Properties/C02.vio: Properties/C02.v Model/Git.vio Proofs/GitProof.vio
+Properties/C02.vos Properties/C02.vok Properties/C02.required_vos: Properties/C02.v Model/Git.vos Proofs/GitProof.vos
+Properties/C07.vo Properties/C07.glob Properties/C07.v.beautified Properties/C07.required_vo: Properties/C07.v Model/Git.vo Proofs/GitProof.vo
+Properties/C07.vio: Properties/C07.v Model/Git.vio Proofs/GitProof.vio
+Properties/C07.vos Properties/C07.vok Properties/C07.required_vos: Properties/C07.v Model/Git.vos Proofs/GitProof.vos
+Properties/C19.vo Properties/C19.glob Properties/C19.v.beautified Properties/C19.required_vo: Properties/C19.v Model/Checkpoint.vo Model/Git.vo Proofs/CheckpointProof.vo
+Properties/C19.vio: Properties/C19.v Model/Checkpoint.vio Model/Git.vio Proofs/CheckpointProof.vio
+Properties/C19.vos Properties/C19.vok Properties/C19.required_vos: Properties/C19.v Model/Checkpoint.vos Model/Git.vos Proofs/CheckpointProof.vos
+AsFound/C02.vo AsFound/C02.glob AsFound/C02.v.beautified AsFound/C02.required_vo: AsFound/C02.v Model/Git.vo Proofs/GitProof.vo Properties/C02.vo
+AsFound/C02.vio: AsFound/C02.v Model/Git.vio Proofs/GitProof.vio Properties/C02.vio
+AsFound/C02.vos AsFound/C02.vok AsFound/C02.required_vos: AsFound/C02.v Model/Git.vos Proofs/GitProof.vos Properties/C02.vos
